@@ -11,8 +11,8 @@ require (
 	github.com/RoaringBitmap/roaring v0.9.4
 	github.com/bits-and-blooms/bitset v1.2.0 // indirect
 	github.com/blevesearch/mmap-go v1.0.4 // indirect
-	github.com/blevesearch/vellum v1.0.7 // indirect
-	github.com/klauspost/compress v1.15.2 // indirect
+	github.com/blevesearch/vellum v1.0.7
+	github.com/klauspost/compress v1.15.2
 	golang.org/x/sys v0.0.0-20220520151302-bc2c85ada10a // indirect
 )
 
